@@ -56,13 +56,7 @@ def _gen_one(task):
         for o in obs:
             out.append({"name": o.name, "kind": o.kind, "where": o.where, "trivial": o.trivial,
                         "smt2": None if o.trivial else o.smt2(), "func": fv.label})
-        covers = []
-        import z3
-        for name, pc in fv.covers:
-            s = z3.Solver()
-            for c in pc:
-                s.add(c)
-            covers.append((name, s.to_smt2()))
+        covers = solve.cover_tasks(fv.covers)
         return {"label": fv.label, "key": key, "ok": True, "obligations": out, "covers": covers, "paths": fv.paths,
                 "gen_s": time.time() - t0, "callees": sorted(world.callees.get(fv.label, [])),
                 "trusted": sorted(world.used_trusted.get(fv.label, [])), "dropped": sorted(world.dropped)}
@@ -112,7 +106,7 @@ def check_covers(gens):
         ctx = mp.get_context("fork")
         with ctx.Pool(16) as pool:
             for name, r in pool.imap_unordered(solve._cover_one, tasks, chunksize=4):
-                if r == "unsat":
+                if r == "vacuous":
                     bad.append(name)
     return len(tasks), bad
 
